@@ -63,7 +63,8 @@ def semiflat(md):
                       'A': [[[[rj(mg.fr(a)) for a in row] for row in blk] for blk in rowA] for rowA in c['A']],
                       'b': [[rj(mg.fr(v)) for v in b] for b in c['b']],
                       'd': [[rj(mg.fr(v)) for v in d] for d in c['d']]})
-    return {'outs': outs, 'ins': ins, 'comps': comps, 'cyclic': bool(md.get('cycle'))}
+    return {'outs': outs, 'ins': ins, 'comps': comps,
+            'cyclic': bool(md.get('cycle')) or any(c['kind'] == 'bil' for c in md['comps'])}
 
 
 def voi_record(md, v):
